@@ -40,6 +40,9 @@ def ns():
     def boom(*a, **k):
         raise RuntimeError("boom")
 
+    def bare(*a, **k):
+        raise ValueError()          # an exception without arguments
+
     def pick(a):
         return Option("X") if a else Value(0)
 
@@ -103,7 +106,7 @@ def ns():
 RECIPES = {
     "Namespace": ["mkns()"],
     "Value": ["Value(3)", "Value([1, {'a': 2}])"],
-    "Apply": ["Option('A').apply(inc)", "Option('A') >> Option('FN', inc)", "Option('A', 1) >> pdiv", "Option('S.X') >> ident"],
+    "Apply": ["Option('A').apply(inc)", "Option('A') >> Option('FN', inc)", "Option('A', 1) >> pdiv", "Option('A', 1) >> bare", "Option('S.X') >> ident"],
     "Bind": ["Option('A').bind(pick)", "Option('A', 0).bind(pick)"],
     "Switch": ["switch(Option('A', 1), {1: rec('one'), 2: rec('two')}, rec('dflt'))","switch(Option('A'), {1: Option('X'), 2: Option('Y', 5)}, Option('Z'))", "switch(Option('A'), {1: Option('X')})",
                "switch(Option('A', 1), {1: Option('X'), True: Value(7)}, Value(9))", "switch('A', {1: ds(Option('X'))}, ds(Option('Z', 0)))"],
@@ -132,10 +135,10 @@ RECIPES = {
                "Option('A', 7, domain=lambda t: {2: True, 7: True}[t])"],
     "Template": ["Template('inputs={S}')", "Template('{L}')", "Template('{A}-{S.X}')", "Template('{A} {:p:}', p=Option('B', 2))"],
     "_AllOptions": ["AllOptions"],
-    "Dataset": ["ds(Option('A'), Option('B', 2))", "ds(Option('A'), options={'B': 1})", "ds(ds(Option('A')), Option('S.X', 0), default_options={'S': {'X': 4}})",
+    "Dataset": ["ds(Option('A'), Option('AB', 0), Option('A_DECAY', 1))","ds(Option('A'), Option('B', 2))", "ds(Option('A'), options={'B': 1})", "ds(ds(Option('A')), Option('S.X', 0), default_options={'S': {'X': 4}})",
                 "ds(Option('A'), Option('S.B', 0), Option('S.C', 'c-fallback'), default_options={'S': {'B': 2, 'C': 3}, 'T': 5})",
                 "ds(Option('A'), Option('B', 0), options={'X': 1}, default_options={'B': 3})"],
-    "Map": ["Map(Option('S.X'), {'S.X': Option('XS')}).apply(list)", "Map(ds(Option('S.X'), Option('S.Y', 0)), {'S.X': [1, 2], 'S.Y': Option('XS')}).apply(list)","Map(switch(Option('K'), {'x': Option('X'), 'y': Option('Y')}), {'K': Option('KINDS')}).apply(list)","Map(Option('A'), {'A': Option('XS')}).apply(list)", "Map(ds(Option('A'), Option('B', 0)), {'A': Option('XS'), 'B': [1, 2]}).apply(list)"],
+    "Map": ["Map(Option('S.X'), {'S.X': Option('XS')}).apply(list)", "Map(ds(Option('S.X'), Option('S.Y', 0)), {'S.X': [1, 2], 'S.Y': Option('XS')}).apply(list)","Map(switch(Option('K'), {'x': Option('X'), 'y': Option('Y')}), {'K': Option('KINDS')}).apply(list)","Map(Option('A'), {'A': Option('XS')}).apply(list)", "Map(ds(Option('A'), Option('B', 0)), {'A': Option('A'), 'B': Option('Y')}).apply(list)", "Map(Option('A'), {'A': Option('A')}).apply(list)", "Map(ds(Option('A'), Option('B', 0)), {'A': Option('XS'), 'B': [1, 2]}).apply(list)"],
 }
 
 VALUES = [1, 2, 0, None, "{B}", [1, 2], {"X": 1}, True]
@@ -145,7 +148,7 @@ KEYS = ["A", "B", "T", "X", "Y", "Z", "S", "FN", "DOM", "XS", "L"]
 def dict_universe(rnd, n):
     out = [{}, {"A": 1}, {"A": 2, "B": 3}, {"A": 1, "X": 5, "Z": 9}, {"A": 1, "T": 0, "X": 4, "Y": 6, "Z": 7},
            {"S": {"X": 1, "Y": 2}}, {"A": "{B}", "B": 2}, {"A": "{NOPE}"}, {"A": 0}, {"A": None, "Z": 1}, {"A": 3, "S": {"X": 2}, "B": 1},
-           {"A": 1, "S": 5}, {"XS": [1, 2], "B": 1}, {"S": {"X": ["{ROOT}/a.csv"]}}, {"L": [{"p": "{ROOT}"}], "A": 1}, {"S": {"X": ["{A}/a.csv"]}, "A": 1}, {"LOGGING": {"LEVEL": 0, "KEEP": 2}, "SERVICE_A": {"LOGGING": {"LEVEL": 5}}, "SERVICE_B": {"LOGGING": {"LEVEL": 0}}},
+           {"A": 1, "S": 5}, {"XS": [1, 2], "B": 1}, {"A": 1, "AB": 2, "A_DECAY": 3}, {"S": {"X": ["{ROOT}/a.csv"]}}, {"L": [{"p": "{ROOT}"}], "A": 1}, {"S": {"X": ["{A}/a.csv"]}, "A": 1}, {"LOGGING": {"LEVEL": 0, "KEEP": 2}, "SERVICE_A": {"LOGGING": {"LEVEL": 5}}, "SERVICE_B": {"LOGGING": {"LEVEL": 0}}},
            {"SERVICE_A": {"LOGGING": {"LEVEL": 9}}, "LOGGING": {"KEEP": 1}}, {"SERVICE_B": {"LOGGING": {"FMT": ""}}}, {"KINDS": ["x", "y"], "X": 1, "Y": 2}, {"KINDS": ["y"], "Y": 2}, {"L": [7, 8]}, {"A": 1, "DOM": [1, 2]}, {"A": 3, "DOM": [1, 2]}]
     for _ in range(n):
         d = {}
@@ -328,6 +331,34 @@ def check_law(law, expr, o, fresh):
             shown = got if got[0] == "ok" else ("err", repr(got[1])[:120])
             return f"evaluate gives {shown!r}; the eager computation gives {want!r}"
         return None
+    if law == "FP":
+        ks = outcome(lambda: e.keys(copy.deepcopy(o)))
+        if ks[0] != "ok":
+            return None
+        fp = outcome(lambda: e.fingerprint(copy.deepcopy(o)))
+        if fp[0] != "ok":
+            return f"keys succeeds but fingerprint fails: {fp[1]!r}"
+        from confectioner.templating import get_dotted_key, set_dotted_key
+        for k in sorted(ks[1]):
+            o2 = copy.deepcopy(o)
+            cur = get_dotted_key(k, o2)
+            new = (cur + 1) if isinstance(cur, (int, float)) and not isinstance(cur, bool) else "changed"
+            if any(p.isdigit() for p in k.split(".")):
+                continue
+            set_dotted_key(k, new, o2)
+            k2 = outcome(lambda: fresh().keys(copy.deepcopy(o2)))
+            if k2[0] == "ok" and set(k2[1]) == set(ks[1]):
+                f2 = outcome(lambda: fresh().fingerprint(copy.deepcopy(o2)))
+                if f2[0] == "ok" and f2[1] == fp[1]:
+                    return f"the value under the reported key {k!r} differs ({cur!r} vs {new!r}) but the fingerprints are identical: {fp[1]!r}"
+        o3 = copy.deepcopy(o)
+        o3["NEVER_MENTIONED"] = 1
+        k3 = outcome(lambda: fresh().keys(copy.deepcopy(o3)))
+        if k3[0] == "ok" and set(k3[1]) == set(ks[1]):
+            f3 = outcome(lambda: fresh().fingerprint(o3))
+            if f3[0] == "ok" and f3[1] != fp[1]:
+                return f"a key nothing refers to changes the fingerprint: {fp[1]!r} vs {f3[1]!r}"
+        return None
     if law == "C04":
         from .reference import ref_outcome
         n = type(e).__name__
@@ -426,7 +457,7 @@ def check_law(law, expr, o, fresh):
 
 
 LAW_OF_GROUP = {"L1": ["L1"], "L2": ["L2"], "L3": ["L3"], "L4a": ["L4a"], "L4t": ["L4t"], "L5": ["L5"], "L5b": ["L5b"], "L5d": ["L5d"],
-                "L6": ["L6"], "L6v": ["L6v"], "C05": ["C05"], "C08": ["C08"], "C04": ["C04"], "C06": ["C06"], "C06c": ["C06"], "with_options": ["C08"], "with_default_options": ["C08"], "tower": ["C08", "C05"]}
+                "L6": ["L6"], "L6v": ["L6v"], "C05": ["C05"], "C08": ["C08"], "FP": ["FP"], "fingerprint": ["FP"], "soundness": ["FP"], "C04": ["C04"], "C06": ["C06"], "C06c": ["C06"], "with_options": ["C08"], "with_default_options": ["C08"], "tower": ["C08", "C05"]}
 
 
 def build(recipe):
@@ -499,7 +530,7 @@ def _section_in_text(root, o):
 
 def known_region(recipe, o, law):
     """recorded findings (known_findings.json): inputs inside their regions are not reported again"""
-    if law in ("C05", "C08", "C06", "C04"):
+    if law in ("C05", "C08", "C06", "C04", "FP"):
         return False
     try:
         root = build(recipe)
